@@ -39,7 +39,7 @@ func init() { register(c10{}) }
 func (c10) ID() string    { return "C10" }
 func (c10) Level() string { return "exploration" }
 func (c10) Rule() string {
-	return "case = logger in one of three life-cycle positions (built-in console logger before any Refresh; sync Logger; AsyncLogger after Refresh with a random level range), each of the three hooks set or unset, 1-4 concurrent client tasks calling all 15 entry points (lazy generators for Trace/Debug) with contexts that request a context string and/or context fields, the simulated clock moved by the scheduler between calls. Oracle per call: if the level is enabled for the serving logger every set hook and the lazy generator ran exactly once with that call's context, the record carries the hook's time (or, hook unset, a simulated-clock reading taken inside the call), the context string, and the context fields ahead of the call's fields; if disabled nothing ran and nothing was emitted. Non-trivial = at least one enabled and one disabled call, plus at least one preemption for multi-task cases; distinct = distinct hashes of (scenario, context-switch trace)."
+	return "case = logger in one of three life-cycle positions (built-in console logger before any Refresh; sync Logger; AsyncLogger after Refresh with a random level range), each of the three hooks set or unset, 1-4 concurrent client tasks calling all 15 entry points (lazy generators for Trace/Debug) with contexts that request a context string and/or context fields, the simulated clock moved by the scheduler between calls. Oracle per call: if the level is enabled for the serving logger every set hook and the lazy generator ran exactly once with that call's context, the record carries the hook's time (or, hook unset, a simulated-clock reading taken inside the call), the context string, and the context fields ahead of the call's fields; if disabled nothing ran and nothing was emitted. Non-trivial = at least one enabled and one disabled call, plus at least one preemption for multi-task cases; distinct = distinct hashes of (scenario, context-switch trace). Every hook also compares Err()/Deadline() of the context it is handed with the caller's (live, cancelled, expired) and reports contexts that belong to no call; one request scope uses context keys that coincide with layout member names (level, tag) and the rendered console line must contain the context fields as the field encoder renders them; a quarter of the configurations reference a RollingFile appender as well."
 }
 func (c10) Decode(raw json.RawMessage) (any, error) {
 	var s C10Scn
